@@ -119,6 +119,17 @@ template<int RD, int D> void view_case(multi::array<long, RD>& /*root*/, view_t<
 		{ IA ia(ss); auto&& fv = fresh(); ia >> boost::serialization::make_nvp("view", fv); }
 		std::vector<long> got; for(auto const& e : fresh.elements()) { got.push_back(e); }
 		os << ",\"" << name << "_fresh\":"; jlist(os, got);
+		// (c) saved as a genuinely read-only view (const_subarray, what a view of a const array is), loaded as in (a)
+		{
+			using cview_t = multi::const_subarray<long, D, typename view_t<D>::element_ptr, typename view_t<D>::layout_type>;
+			cview_t const& cv = v;
+			std::stringstream ss3;
+			{ OA oa(ss3); oa << boost::serialization::make_nvp("view", cv); }
+			multi::array<long, D> fresh3(xext<D>(sh, zero), -1L);
+			{ IA ia(ss3); auto&& fv = fresh3(); ia >> boost::serialization::make_nvp("view", fv); }
+			std::vector<long> got3; for(auto const& e : fresh3.elements()) { got3.push_back(e); }
+			os << ",\"" << name << "_cfresh\":"; jlist(os, got3);
+		}
 		// (b) into a view with rotated memory layout
 		std::vector<long> ush(sh);
 		if(D > 1) { ush.insert(ush.begin(), ush.back()); ush.pop_back(); } else { ush[0] *= 2; }
@@ -158,8 +169,9 @@ template<int D> void run_view(long id, view_program const& p) {
 				}, cur);
 			});
 		} catch(unsupported const& u) { why = u.why; }
-		catch(std::exception const& e) { why = std::string("exception:") + e.what(); }
-		if(!why.empty()) { os << ",\"st\":\"unsupported\",\"why\":\"" << why << "\""; }
+		catch(std::exception const& e) { os << ",\"st\":\"exception\",\"what\":\"" << guard::jesc(e.what()) << "\",\"partial\":{\"x\":0" << body.str() << "}"; why = "-"; }
+		if(why == "-") {}
+		else if(!why.empty()) { os << ",\"st\":\"unsupported\",\"why\":\"" << why << "\""; }
 		else if(!fin) { os << ",\"st\":\"abort\",\"abort\":" << guard::last_json(); }
 		else { os << ",\"st\":\"ok\"" << body.str(); std::vector<long> rootv; for(auto const& e : root.elements()) { rootv.push_back(e); } os << ",\"root\":"; jlist(os, rootv); }
 	}
